@@ -26,6 +26,7 @@ type Obligation struct {
 	Expect  string // "unsat" (proved) for proof obligations, "sat" for covers/canaries
 	Note    string
 	Src     string
+	wenv    *Env // environment in which a known-finding witness predicate is evaluated
 }
 
 type Verifier struct {
